@@ -35,7 +35,7 @@ PROBES = ["fault_free_runs", "files_structurally_compared", "adjusted_rules_mask
           "fault:eacces-in", "fault:eio-in", "fault:eio-close-out", "dir_invocation", "file_invocation", "cwd_is_tree", "bystanders_checked",
           "feat:opaque-atrules", "feat:odd-strings", "feat:vendor-hacks", "feat:star-hack", "feat:crlf", "feat:bom", "feat:cdo-cdc",
           "feat:non-ascii", "feat:nesting", "feat:vars", "feat:unicode-seps", "feat:dup-root", "feat:nested-root", "feat:dup-selectors", "noarg_invocation", "glue_comment_needed", "report_written", "stale_output_overwritten",
-          "cm_named_stylesheet_as_file_argument", "cm_named_stylesheet_as_bystander"]
+          "cm_named_stylesheet_as_file_argument", "cm_named_stylesheet_as_bystander", "symlinked_stylesheet_input"]
 
 C09_FEATURES = gen.ALL_FEATURES
 _NAMES = ("a.css", "b.css", "main.css", "thème.css", "my style.css", "reset.min.css")
@@ -76,9 +76,22 @@ def generate(rseed, tier, idx):
     for name, txt in by.items():
         if g.random() < 0.5:
             tree[name] = {"k": "text", "text": txt, "bystander": True}
-    if g.random() < 0.25:
+    outside = {}
+    if g.random() < 0.3:
         tops = [r for r in inputs if "/" not in r]
-        tree["link.css"] = {"k": "link", "to": g.choice(tops) if tops else "sub/nothing.css", "linkobj": True}
+        m = g.random()
+        if m < 0.5 and tops:
+            tree["link.css"] = {"k": "link", "to": g.choice(tops), "linkobj": True}
+        elif m < 0.85:
+            # a link to a stylesheet that lives OUTSIDE the processed tree (shared design tokens, say)
+            feats = gen.draw_features(g, feats_pool, 0.3)
+            ast = gen.gen_sheet(g, feats, settings, max_rules=3, tag="X")
+            outside["shared/base.css"] = {"k": "css", "ast": ast, "text": gen.render(ast)}
+            if g.random() < 0.5:
+                outside["shared/base_cm.css"] = {"k": "text", "text": ".keep{color:#000}"}
+            tree["ext.css"] = {"k": "link", "to": "../shared/base.css", "linkobj": True}
+        else:
+            tree["link.css"] = {"k": "link", "to": "sub/nothing.css", "linkobj": True}
     if g.random() < 0.25:
         tree[g.choice(inputs)[:-4] + "_cm.css"] = {"k": "text", "text": ".old{color:#000", "stale": True}
     pre_report = g.random() < 0.25
@@ -123,7 +136,7 @@ def generate(rseed, tier, idx):
         else:
             p = "tree/" + fr.choice(inputs)
             plans.append({"kind": kind, "faults": [{"path": p, "mode": "r", "n": 1, "what": "eacces" if kind == "eacces-in" else "eio"}]})
-    return {"prop": ID, "tree": tree, "env": env, "settings": settings, "inv": inv, "pre_report": pre_report,
+    return {"prop": ID, "tree": tree, "outside": outside, "env": env, "settings": settings, "inv": inv, "pre_report": pre_report,
             "order_key": o.randrange(1 << 30), "plans": plans, "crash_frac": [fr.random() for _ in range(3)], "enumerate_crashes": True}
 
 
@@ -144,6 +157,8 @@ def _setup(trace, tag):
     os.makedirs(tdir)
     for rel in sorted(trace["tree"]):
         seams.put_entry(tdir, rel, trace["tree"][rel])
+    for rel in sorted(trace.get("outside") or {}):
+        seams.put_entry(root, rel, trace["outside"][rel])
     for d in ("home", "tmp", trace["env"]["cwd"]):
         os.makedirs(os.path.join(root, d), exist_ok=True)
     if trace.get("pre_report"):
@@ -258,6 +273,12 @@ def execute(trace):
         # ---- structure / validity / exists per healthy input
         for rel in inputs:
             ent = tree_before.get(rel)
+            if ent is not None and ent[0] == "l":
+                # a symbolic link to a stylesheet is a stylesheet: its result belongs next to the link
+                tgt = os.path.normpath(os.path.join("tree", os.path.dirname(rel), ent[1]))
+                ent = before.get(tgt)
+                if ent is not None and ent[0] == "f":
+                    bump("symlinked_stylesheet_input")
             if ent is None or ent[0] != "f":
                 continue
             try:
@@ -451,6 +472,10 @@ def shrink(trace):
     if trace.get("pre_report"):
         t = copy.deepcopy(trace)
         t["pre_report"] = False
+        yield t
+    for rel in sorted(trace.get("outside") or {}):
+        t = copy.deepcopy(trace)
+        del t["outside"][rel]
         yield t
     if trace.get("order_key") is not None:
         t = copy.deepcopy(trace)
